@@ -20,7 +20,7 @@ use crate::report::{Acc, Check, Tier};
 use crate::util;
 use crate::world::{self, Artifacts, Verdict};
 
-pub const VARIATIONS: [&str; 29] = [
+pub const VARIATIONS: [&str; 43] = [
     "none",
     "materials:path",
     "materials:digest-byte",
@@ -52,6 +52,22 @@ pub const VARIATIONS: [&str; 29] = [
     // like second-algorithm-added, with another value for the added algorithm
     "materials:second-algorithm-other-value",
     "products:second-algorithm-other-value",
+    // the path of entry `a` in another spelling (a different file name): the link is read from
+    // text before it is signed, as a functionary's tool would read what it recorded
+    "materials:path+trailing-space",
+    "materials:path+trailing-newline",
+    "materials:path+leading-space",
+    "materials:path+trailing-nul",
+    "materials:path+upper",
+    "materials:path+leading-dot-slash",
+    "materials:path+trailing-slash",
+    "products:path+trailing-space",
+    "products:path+trailing-newline",
+    "products:path+leading-space",
+    "products:path+trailing-nul",
+    "products:path+upper",
+    "products:path+leading-dot-slash",
+    "products:path+trailing-slash",
 ];
 
 fn base_arts() -> Artifacts {
@@ -59,6 +75,12 @@ fn base_arts() -> Artifacts {
 }
 
 fn vary(arts: &mut Artifacts, what: &str) {
+    if let Some(kind) = what.strip_prefix("path+") {
+        let d = arts.remove(&world::vpath("a")).unwrap();
+        let new = if kind == "trailing-newline" { "a\n".to_string() } else { crate::tamper::respell("a", kind).unwrap_or_else(|| "a?".to_string()) };
+        arts.insert(world::vpath(&new), d);
+        return;
+    }
     match what {
         "path" => {
             let d = arts.remove(&world::vpath("a")).unwrap();
@@ -135,7 +157,14 @@ fn link_for(variation: usize) -> in_toto::models::LinkMetadata {
             vary(&mut p, w);
         }
     }
-    world::link("s", m, p)
+    let l = world::link("s", m, p);
+    if v.contains(":path+") {
+        // through text, like a link that a tool wrote and read again before signing it
+        if let Ok(back) = serde_json::to_string(&l).map_err(|e| e.to_string()).and_then(|t| serde_json::from_str::<in_toto::models::LinkMetadata>(&t).map_err(|e| e.to_string())) {
+            return back;
+        }
+    }
+    l
 }
 
 fn fns() -> [&'static Key; 4] {
@@ -330,7 +359,7 @@ pub fn run(tier: Tier) -> i32 {
         q.push_back(start);
         let mut transitions = 0u64;
         // quick tier: the digest-length variations and the two-multi-party-step shapes with k = 2 only
-        let nvar = if k == 2 || (tier.thorough() && k == 3) { VARIATIONS.len() } else { 21 };
+        let nvar = if k == 2 { VARIATIONS.len() } else if tier.thorough() && k == 3 { 29 } else { 21 };
         while let Some(s) = q.pop_front() {
             for i in 0..k {
                 for v in 0..nvar {
@@ -428,7 +457,7 @@ pub fn run(tier: Tier) -> i32 {
     }
     delegated_leg(&mut acc);
     c.acc = acc;
-    c.rule = "state = vector of per-link variations (29 kinds: none; in materials or products: a second algorithm added with one of two values, other path, last / first digest byte, digest truncated by a byte / extended by a byte / of no bytes, other algorithm, second algorithm added, extra entry sorting last / first, missing last / first entry, empty map) for k authorised valid links, optionally plus a dissenting link by a key outside the key table or a tampered one; transition = change one link's variation; every state runs in_toto_verify for thresholds 2..min(k,3), with the step alone, next to a single-party step (before it, after it, after a threshold-0 step) and next to a second multi-party step whose links agree (before it, after it) under every permutation of the reference-link choice (site C); plus a delegated multi-party step (two functionaries, two-step sub-layouts) with a dissent at each of 6 places, 4 of them visible in the summaries; non-trivial = vectors that are not all equal".into();
+    c.rule = "state = vector of per-link variations (43 kinds, the last 14 for k = 2 only: none; the path of one entry re-spelled (blank / newline / NUL / slash appended, blank or ./ prepended, upper case) in a link that was read from text before it was signed; in materials or products: a second algorithm added with one of two values, other path, last / first digest byte, digest truncated by a byte / extended by a byte / of no bytes, other algorithm, second algorithm added, extra entry sorting last / first, missing last / first entry, empty map) for k authorised valid links, optionally plus a dissenting link by a key outside the key table or a tampered one; transition = change one link's variation; every state runs in_toto_verify for thresholds 2..min(k,3), with the step alone, next to a single-party step (before it, after it, after a threshold-0 step) and next to a second multi-party step whose links agree (before it, after it) under every permutation of the reference-link choice (site C); plus a delegated multi-party step (two functionaries, two-step sub-layouts) with a dissent at each of 6 places, 4 of them visible in the summaries; non-trivial = vectors that are not all equal".into();
     c.bound_completed = format!("complete variation vectors for {} (BFS reaches every vector)", bounds.join(", "));
     c.assume("all k links are validly signed by authorised keys of the key table; no rules (isolates C03)");
     c.finish()
